@@ -301,7 +301,18 @@ def setattr_shape(classes):
     body = [s for s in fn.body if not (isinstance(s, ast.Expr) and isinstance(s.value, ast.Constant))]
     if len(body) != 2 or not isinstance(body[0], ast.If) or not isinstance(body[1], ast.Expr):
         raise ExtractError("LazyMutableClass.__setattr__: unexpected statement shape")
-    test = ast.dump(body[0].test)
+    test_node = body[0].test
+    # one level of a private helper: `if self._helper(name):` with `def _helper(self, name): return <test>`
+    if (isinstance(test_node, ast.Call) and isinstance(test_node.func, ast.Attribute)
+            and isinstance(test_node.func.value, ast.Name) and test_node.func.value.id == fn.args.args[0].arg
+            and test_node.func.attr in classes[BASE].funcs and len(test_node.args) == 1 and not test_node.keywords
+            and isinstance(test_node.args[0], ast.Name) and test_node.args[0].id == fn.args.args[1].arg):
+        helper = classes[BASE].funcs[test_node.func.attr]
+        hbody = [s for s in helper.body if not (isinstance(s, ast.Expr) and isinstance(s.value, ast.Constant))]
+        if (len(hbody) == 1 and isinstance(hbody[0], ast.Return) and hbody[0].value is not None
+                and [a.arg for a in helper.args.args] == [fn.args.args[0].arg, fn.args.args[1].arg]):
+            test_node = hbody[0].value
+    test = ast.dump(test_node)
     inner = [s for s in body[0].body if not (isinstance(s, ast.Expr) and isinstance(s.value, ast.Constant))]
     unconditional = (len(inner) == 1 and isinstance(inner[0], ast.Expr) and isinstance(inner[0].value, ast.Call)
                      and isinstance(inner[0].value.func, ast.Attribute) and inner[0].value.func.attr == "_clear_cache"
@@ -357,6 +368,7 @@ class Effects:
         self.ctor_names = tracked_ctor_names
         self.out = {}       # object var -> list of effect tuples
         self.stack = []
+        self.namesets = {}  # loop variable -> attribute name currently bound (unrolled loops over name tuples)
 
     def emit(self, obj, eff):
         self.out.setdefault(obj, []).append(eff)
@@ -437,6 +449,15 @@ class Effects:
             self.block(st.orelse, owners, aliases, False)
             return
         if isinstance(st, (ast.For, ast.AsyncFor)):
+            # `for attr in self.<class-level tuple of attribute names>`: unroll (getattr/setattr with `attr`)
+            names = self.name_tuple(st.iter, owners)
+            if names is not None and isinstance(st.target, ast.Name):
+                for nm in names:
+                    self.namesets[st.target.id] = nm
+                    self.block(st.body, owners, aliases, False)
+                self.namesets.pop(st.target.id, None)
+                self.block(st.orelse, owners, aliases, False)
+                return
             self.expr(st.iter, owners, aliases)
             src = self.alias_source(st.iter, owners, aliases)
             for n in ast.walk(st.target):
@@ -477,7 +498,30 @@ class Effects:
             return
         raise ExtractError("%s.%s: statement %s not understood" % (self.view.name, self.fname, type(st).__name__))
 
+    def name_tuple(self, e, owners):
+        """`self.X` / `cls.X` where X is a class-level literal tuple/list of strings -> the strings"""
+        if isinstance(e, ast.Attribute) and isinstance(e.value, ast.Name) and e.value.id in owners:
+            v = self.view.class_attrs.get(e.attr)
+            if isinstance(v, (ast.Tuple, ast.List)) and v.elts and all(
+                    isinstance(x, ast.Constant) and isinstance(x.value, str) for x in v.elts):
+                return [x.value for x in v.elts]
+        return None
+
+    def dyn_name(self, node):
+        """second argument of getattr/setattr: a string constant, or a loop variable bound by name_tuple"""
+        if isinstance(node, ast.Constant) and isinstance(node.value, str):
+            return node.value
+        if isinstance(node, ast.Name) and node.id in self.namesets:
+            return self.namesets[node.id]
+        return None
+
     def alias_source(self, e, owners, aliases):
+        if (isinstance(e, ast.Call) and isinstance(e.func, ast.Name) and e.func.id == "getattr" and len(e.args) >= 2
+                and isinstance(e.args[0], ast.Name) and e.args[0].id in owners and self.dyn_name(e.args[1])):
+            nm = self.dyn_name(e.args[1])
+            if self.view.kinds.get(nm) in ("method", "static", "class"):
+                return None
+            return (owners[e.args[0].id], nm)
         """-> (object var, attr) when `e` evaluates to (an element / a view of) an attribute of a tracked object"""
         if isinstance(e, ast.Call) and isinstance(e.func, ast.Name) and e.func.id in ("enumerate", "zip", "reversed", "iter", "list", "sorted", "tuple"):
             for a in e.args:
@@ -593,13 +637,17 @@ class Effects:
     def call(self, c, owners, aliases, top):
         f = c.func
         # setattr/getattr/delattr/vars on a tracked object
+        if isinstance(f, ast.Name) and f.id == "setattr" and len(c.args) == 3 and isinstance(c.args[0], ast.Name) \
+                and c.args[0].id in owners and self.dyn_name(c.args[1]):
+            self.emit(owners[c.args[0].id], ("assign", self.dyn_name(c.args[1])))      # goes through __setattr__
+            return
         if isinstance(f, ast.Name) and f.id in ("setattr", "delattr", "vars") and c.args and isinstance(c.args[0], ast.Name) and c.args[0].id in owners:
             raise ExtractError("%s.%s: %s(self, ...)" % (self.view.name, self.fname, f.id))
         if isinstance(f, ast.Name) and f.id == "getattr" and c.args and isinstance(c.args[0], ast.Name) and c.args[0].id in owners:
-            if len(c.args) < 2 or not isinstance(c.args[1], ast.Constant):
+            if len(c.args) < 2 or not self.dyn_name(c.args[1]):
                 raise ExtractError("%s.%s: getattr(self, <dynamic>)" % (self.view.name, self.fname))
-            if self.view.kinds.get(c.args[1].value) == "lazy":
-                self.emit(owners[c.args[0].id], ("read", c.args[1].value))
+            if self.view.kinds.get(self.dyn_name(c.args[1])) == "lazy":
+                self.emit(owners[c.args[0].id], ("read", self.dyn_name(c.args[1])))
         # in-place library functions applied to an attribute or alias
         fname = f.attr if isinstance(f, ast.Attribute) else (f.id if isinstance(f, ast.Name) else None)
         if fname in INPLACE_FUNCS and c.args:
@@ -726,7 +774,19 @@ def analyse(repo):
         raise ExtractError("no class derives from LazyMutableClass")
     ctor_names = set(lazy_classes)
     res = {"class_level_clears": class_clears, "classes": []}
+    # A class without a constructor of its own in front of LazyMutableClass.__init__ that only serves as a base of
+    # other scanned classes (a mixin of shared lazy properties) is never instantiated by itself: it gets no row; its
+    # lazy properties and methods are checked in the row of every concrete subclass (View merges the MRO).
+    def abstract_base(n):
+        chain = [m for m in mro(classes, n) if m in classes]
+        first_init = next((m for m in chain if "__init__" in classes[m].funcs), None)
+        has_sub = any(n in mro(classes, o)[1:] for o in lazy_classes if o != n)
+        instantiated = any(isinstance(x, ast.Call) and isinstance(x.func, ast.Name) and x.func.id == n
+                           for c in classes.values() for x in ast.walk(c.node))
+        return first_init == BASE and has_sub and not instantiated
     for cname in lazy_classes:
+        if abstract_base(cname):
+            continue
         v = View(classes, cname)
         static = static_attrs(classes, cname)
         cls_public = v.class_public()
